@@ -1,5 +1,22 @@
-(* Property C10 — each WeakDom operation has exactly its documented effect (statements only). *)
-From RbxVerif Require Import Base Dom Tree BaseFacts DomFacts.
+(* Property C10 — each WeakDom operation has exactly its documented effect (statements only).
+   The documented effect is the rose-tree specification Model/Tree.v (a_insert: append the built subtree
+   as last child; a_destroy: delete exactly the subtree; a_move_within / a_move: detach one subtree and
+   append it under the new parent, keeping referents, order and properties).  Each theorem says: when
+   the specification is defined, the concrete operation returns Ok and its result represents exactly the
+   specification's result — which includes the frame clause, because `Rep` fixes the whole table. *)
+From RbxVerif Require Import Base Dom Tree BaseFacts DomFacts TreeFacts Rep RepWF
+  RefDestroy RefMoveWithin RefInsert RefMove.
+
+Theorem C10_insert_effect : refines_insert.
+Proof. exact insert_refines. Qed.
+Theorem C10_new_effect : refines_new.
+Proof. exact new_refines. Qed.
+Theorem C10_destroy_effect : refines_destroy.
+Proof. exact destroy_refines. Qed.
+Theorem C10_move_within_effect : refines_move_within.
+Proof. exact move_within_refines. Qed.
+Theorem C10_transfer_effect : refines_move.
+Proof. exact move_refines. Qed.
 
 Theorem C10_remove_frame : forall d r d' i x,
   inner_remove d r = Some (d', i) -> x <> r -> lookup x (d_insts d') = lookup x (d_insts d).
